@@ -45,7 +45,12 @@ Definition obs := (Z * Z * Z * Z * Z)%type.
 (* process number, pool size, digest of the generator state at start, operations, observations *)
 Definition hist := (Z * Z * Z * list op * list obs)%type.
 
-Definition seed_given (o : op) : option Z := match o with FitHourly _ _ s => s | _ => None end.
+Definition seed_given (st : gstate) (o : op) : option Z :=
+  match o with
+  | FitHourly _ _ s => s
+  | FitObj k _ => match nth_error (g_objs st) k with Some ob => ob_seed ob | None => None end
+  | _ => None
+  end.
 
 (* what the model says about every operation: result, seed as given (it is echoed in the JSON), generator after, default list length *)
 Fixpoint mtrace (s : gstate) (h : list op) : list (res * option Z * rng * Z) :=
@@ -53,7 +58,7 @@ Fixpoint mtrace (s : gstate) (h : list op) : list (res * option Z * rng * Z) :=
   | [] => []
   | o :: rest =>
       let '(s', r) := step s o in
-      (r, seed_given o, g_rng s', Z.of_nat (length (g_ct_default s'))) :: mtrace s' rest
+      (r, seed_given s o, g_rng s', Z.of_nat (length (g_ct_default s'))) :: mtrace s' rest
   end.
 
 Definition agree (x y : Z) : bool := (x <? 0) || (y <? 0) || (x =? y).
